@@ -150,11 +150,15 @@ def scrub(text):
 
 def pool():
     """colliding calls; built lazily inside the child so that spec objects shared between two threads are the SAME object"""
-    from glom import T, S, Coalesce, Fill, Match, Val, Check, M, Auto
+    from glom import T, S, Coalesce, Fill, Match, Val, Check, M, Auto, Invoke
     from glom.grouping import Group
     from .. import c06pool as P
     shared = (Y('s1'), {'c': Coalesce('zz', default=[T['a'], {'k': T['a']}]), 'f': Fill({'k': T['a'], 'l': [T['a'], 'lit']}),
                         'g': ('items', Y('s2'), Group({T % 2: [T]})), 'y': (Y('s3'), 'a')})
+    shared_invoke = Invoke(lambda *a, **kw: (a, sorted(kw.items()))).specs((Y('i1'), T['a'])).specs((Y('i2'), T['a']), k=(Y('i3'), T['a']))
+
+    def boom(t):
+        raise ZeroDivisionError('user failure inside a spec')
     return [
         ('path-1', lambda: {'a': {'b': 1}}, ('a', Y('p1'), 'b')),
         ('path-2', lambda: {'a': {'b': 'two'}, 'q': 1}, {'r': 'a.b', 'y': (Y('p2'), 'a.b', Y('p3'))}),
@@ -165,6 +169,9 @@ def pool():
         ('bind-mode', lambda: {'a': 'bound'}, (S(k=T['a']), Y('b1'), Fill({'v': S['k'], 'lit': 'a'}), Y('b2'), Match({'v': str, 'lit': 'a'}), Auto((S['k'], Y('b3'))))),
         ('fail-path', lambda: {'a': {'b': 1}}, ('a', Y('f1'), 'zz.q')),
         ('fail-coalesce', lambda: {'a': 1}, ('a', Y('f2'), Coalesce(T['x'], (Y('f3'), T['y'])))),
+        ('shared-invoke-1', lambda: {'a': 'one'}, shared_invoke),
+        ('shared-invoke-2', lambda: {'a': 'two'}, shared_invoke),
+        ('fail-user-exception', lambda: {'a': 1}, ('a', Y('x1'), boom)),
     ]
 
 
@@ -356,7 +363,7 @@ def compress(trace):
     return out
 
 
-PAIRS = [(0, 1), (0, 0), (2, 3), (2, 2), (4, 5), (4, 4), (6, 6), (7, 8), (0, 7), (6, 2), (4, 0), (5, 8)]
+PAIRS = [(0, 1), (0, 0), (2, 3), (2, 2), (4, 5), (4, 4), (6, 6), (7, 8), (0, 7), (6, 2), (4, 0), (5, 8), (9, 10), (9, 9), (11, 7)]
 
 
 def gen_lines(tier):
@@ -394,7 +401,7 @@ def gen_hot(tier):
 def gen_calls(tier):
     """preemption bound 2 at function-entry granularity over ALL of glom/*.py (no prior knowledge of which function holds shared state)"""
     cases = []
-    pairs = [(2, 3), (2, 2), (6, 6)] if tier == 'quick' else PAIRS
+    pairs = [(2, 3), (2, 2), (6, 6), (9, 10)] if tier == 'quick' else PAIRS
     step = 3 if tier == 'quick' else 2
     for i, j in pairs:
         na, nb = ALONE[('calls', i)][1], ALONE[('calls', j)][1]
@@ -457,7 +464,7 @@ def run_reentrant(case):
         return records
     records = in_child(work)
     where = {'chain': chain, 'inner_failures_caught': catch}
-    fails = {7, 8}
+    fails = {7, 8, 11}
     for level, out in records:
         i = chain[level]
         alone = ALONE[('callables', i)][0]
